@@ -6,7 +6,9 @@
 (* whose magnitudes and offsets are the ones Trace_Units derived from the unit symbols            *)
 (* (unit_table).  One event per class carries the worst distance; this module is the acceptance   *)
 (* rule: budget, exact zero, exact sign symmetry, finiteness, agreement of the compile-time and   *)
-(* run-time entry points, and - as vacuity guards - which value classes and units were exercised. *)
+(* run-time entry points, agreement of every sequence overload (std::array, std::vector, planar   *)
+(* vector, vector, symmetric dyad, dyad; by value and in place) with the scalar overload, and - as *)
+(* vacuity guards - which value classes and units were exercised.                                  *)
 EXTENDS Integers, Sequences, FiniteSets, Json, IOUtils, TLC
 
 CONSTANTS BudgetMul,      \* ulps allowed for a purely multiplicative pair (<= 2*(k1+k2) roundings)
@@ -29,12 +31,13 @@ V(cls, r) == [cls |-> cls, type |-> r.type, from |-> r.from, to |-> r.to, num |-
 TConv == LET r == Events[l] IN
   /\ l <= Len(Events) /\ r.e = "Conv" /\ l' = l + 1
   /\ r.type \in DOMAIN Units /\ r.from \in SeqSet(Units[r.type]) /\ r.to \in SeqSet(Units[r.type])
-  /\ r.num \in {"f", "d", "l"} /\ r.entry \in {"run", "static"} /\ r.n > 0
+  /\ r.num \in {"f", "d", "l"} /\ r.entry \in {"run", "static"} /\ r.n > 0 /\ r.seq_n > 0
   /\ LET checks == << <<r.nonfinite = 0, "conv_nonfinite">>,
                       <<r.ulps <= (IF r.affine THEN BudgetAffine ELSE BudgetMul), "conv_ulps">>,
                       <<r.affine \/ r.zero = 1, "conv_zero_not_zero">>,
                       <<r.affine \/ r.sym = 1, "conv_sign_asymmetric">>,
                       <<r.entry = "static" => r.vs_runtime <= BudgetEntry, "conv_static_vs_runtime">>,
+                      <<r.seq_diff = 0, "conv_sequence_overload">>,      \* array / std::vector / vector / tensor overloads = the scalar overload per component, bit for bit
                       <<ClassesOK(r.classes), "inconclusive_value_classes">> >>
          failed == SelectSeq(checks, LAMBDA c : ~c[1])
      IN bad' = IF Len(bad) >= 400 THEN bad ELSE bad \o [i \in 1..Len(failed) |-> V(failed[i][2], r)]
